@@ -82,7 +82,9 @@ def fac2(ctx, x):
         if x == ctx.inf:
             return x
         return ctx.nan
-    return 2**(x/2)*(ctx.pi/2)**((ctx.cospi(x)-1)/4)*ctx.gamma(x/2+1)
+    # x/2 and x/2+1 exactly: a large x must not be rounded before 2**(x/2) and gamma(x/2+1) are taken
+    h = ctx.fmul(x, 0.5, exact=True)
+    return 2**h*(ctx.pi/2)**((ctx.cospi(x)-1)/4)*ctx.gamma(ctx.fadd(h, 1, exact=True))
 
 @defun_wrapped
 def barnesg(ctx, z):
